@@ -50,11 +50,11 @@ func startBinary(bin string, args []string, env []string) (bool, string) {
 		// it must also survive its other listeners (profiling, gRPC) coming up
 		select {
 		case <-exited:
-		case <-time.After(700 * time.Millisecond):
+		case <-time.After(2 * time.Second):
 			started = true
 		}
 	case <-exited:
-	case <-time.After(20 * time.Second):
+	case <-time.After(120 * time.Second):
 	}
 	select {
 	case <-exited:
